@@ -739,7 +739,8 @@ Ltac lift_if := match goal with |- lift _ (if ?b then _ else _) => destruct b en
 
 (* an iteration inside a passage only replaces the passage being built *)
 Lemma body_step_shape : forall (R : pstate -> Prop) lines i line st cp,
-  R st -> (forall cp', R (set_current st cp')) -> lift R (body_step pp xs lines i line st cp).
+  R st -> (forall cp', pp_id cp' = pp_id cp -> R (set_current st cp')) ->
+  lift R (body_step pp xs lines i line st cp).
 Proof.
   intros R lines i line st cp H0 H1. unfold body_step.
   lift_if; [apply lift_ok; auto|].
@@ -815,6 +816,91 @@ Proof.
     eapply IH; [|exact E2]. eapply (parse_step_keys lines i line st H); eauto.
 Qed.
 
+(* --- passage names are valid names --- *)
+
+Definition names_ok (st : pstate) : Prop :=
+  (forall k p, In (k, p) (st_passages st) -> valid_passage_pattern k = true) /\
+  (forall cp, st_current st = Some cp -> valid_passage_pattern (pp_id cp) = true).
+
+Lemma validate_passage_name_valid : forall name i,
+  validate_passage_name name i = POk tt -> valid_passage_pattern name = true.
+Proof.
+  intros name i H. unfold validate_passage_name in H.
+  destruct (negb (nonempty name) || isspace name); [discriminate|].
+  destruct (valid_passage_pattern name); auto.
+  destruct (str_contains name " "); [discriminate|].
+  destruct (str_contains name "-"); [discriminate|]. destruct name; discriminate.
+Qed.
+
+Lemma set_key_names : forall (l : list (string * ppassage)) k v,
+  (forall k0 p, In (k0, p) l -> valid_passage_pattern k0 = true) -> valid_passage_pattern k = true ->
+  forall k0 p, In (k0, p) (set_key k v l) -> valid_passage_pattern k0 = true.
+Proof.
+  induction l as [|[k1 p1] r IH]; intros k v H Hk k0 p Hin; simpl in Hin.
+  - destruct Hin as [E|[]]. inversion E; subst; auto.
+  - destruct (String.eqb k k1).
+    + destruct Hin as [E|Hin]; [inversion E; subst; auto|]. eapply H; right; eauto.
+    + destruct Hin as [E|Hin]; [inversion E; subst; eapply H; left; eauto|].
+      eapply IH; eauto. intros; eapply H; right; eauto.
+Qed.
+
+Lemma flush_names : forall st, names_ok st ->
+  forall k p, In (k, p) (flush_current st) -> valid_passage_pattern k = true.
+Proof.
+  intros st [H1 H2] k p Hin. unfold flush_current in Hin.
+  destruct (st_current st) as [cp|] eqn:E; [|eauto].
+  eapply set_key_names; eauto.
+Qed.
+
+Lemma parse_step_names : forall lines i line st,
+  names_ok st -> lift names_ok (parse_step pp xs lines i line st).
+Proof.
+  intros lines i line st0 Hn0. unfold parse_step.
+  match goal with |- lift _ (match ?p with inl _ => _ | inr _ => _ end) =>
+    assert (Hp : (forall s, p = inl s -> names_ok s) /\ (forall s j, p = inr (s, j) -> names_ok s));
+      [|destruct p as [st1|[s j]]] end.
+  { split; intros; repeat match goal with H : context [if ?b then _ else _] |- _ => destruct b end;
+      match goal with H : _ = _ |- _ => inversion H; subst; exact Hn0 end. }
+  2:{ destruct Hp as [_ Hp]. apply lift_ok. apply (Hp s j eq_refl). }
+  destruct Hp as [Hp _]. specialize (Hp st1 eq_refl).
+  lift_if; [apply lift_ok; exact Hp|].
+  match goal with |- lift _ (match ?p with inl _ => _ | inr _ => _ end) =>
+    assert (Hq : (forall s, p = inl s -> names_ok s) /\ (forall s j, p = inr (s, j) -> names_ok s));
+      [|destruct p as [st2|[s j]]] end.
+  { split; intros;
+      repeat match goal with
+             | H : context [if ?b then _ else _] |- _ => destruct b
+             | H : context [match find_char ?a ?b with _ => _ end] |- _ => destruct (find_char a b)
+             end;
+      match goal with H : _ = _ |- _ => inversion H; subst; exact Hp end. }
+  2:{ destruct Hq as [_ Hq]. apply lift_ok. apply (Hq s j eq_refl). }
+  destruct Hq as [Hq _]. specialize (Hq st2 eq_refl).
+  lift_if; [apply lift_ok; exact Hq|].
+  lift_if.
+  { destruct (strip_inline_comment _). destruct (extract_passage_params _). destruct (parse_tags _) as [name tags].
+    intros st' i' E. apply pbind_ok in E. destruct E as [[] [Ev E]].
+    apply pbind_ok in E. destruct E as [ps [_ E]]. inversion E; subst. clear E.
+    apply validate_passage_name_valid in Ev.
+    split; simpl.
+    - apply flush_names; auto.
+    - intros cp Hc. inversion Hc; subst. simpl. auto. }
+  destruct (st_current st2) as [cp|] eqn:Ec; [|apply lift_ok; auto].
+  destruct Hq as [Hq1 Hq2].
+  apply body_step_shape; [split; auto|].
+  intros cp' Hid. split; simpl; auto. intros cp0 Hc0. inversion Hc0; subst. rewrite Hid. auto.
+Qed.
+
+Lemma parse_loop_names : forall fuel lines n i st st',
+  names_ok st -> parse_loop pp xs fuel lines n i st = POk st' -> names_ok st'.
+Proof.
+  induction fuel as [|f IH]; intros lines n i st st' H E; simpl in E.
+  - destruct (n <=? i); [inversion E; subst; auto|discriminate].
+  - destruct (n <=? i); [inversion E; subst; auto|].
+    destruct (nth_error lines i) as [line|]; try discriminate.
+    apply pbind_ok in E. destruct E as [[st1 i1] [E1 E2]].
+    eapply IH; [|exact E2]. eapply (parse_step_names lines i line st H); eauto.
+Qed.
+
 (* what `parse` returns, taken apart *)
 Lemma parse_inv : forall lines0 story,
   parse pp is_call xs lines0 = POk story ->
@@ -822,6 +908,7 @@ Lemma parse_inv : forall lines0 story,
     (let lines := strip_comments_outside_python lines0 None false 0 in
      parse_loop pp xs (S (List.length lines)) lines (List.length lines) 0 init_state = POk fs) /\
     keys_ok (flush_current fs) /\
+    (forall k p, In (k, p) (flush_current fs) -> valid_passage_pattern k = true) /\
     passages story = map (fun kv => (fst kv, finish_passage (snd kv))) (flush_current fs) /\
     validate_passage_arguments pp is_call (passages story) = POk tt /\
     determine_initial_passage (passages story) (st_explicit_start fs) = POk (initial story).
@@ -833,7 +920,8 @@ Proof.
   apply pbind_ok in H. destruct H as [ini [E4 H]].
   inversion H; subst; clear H. simpl.
   exists fs. repeat split; auto.
-  apply keys_ok_flush. eapply parse_loop_keys; [|exact E1]. intros k p [].
+  - apply keys_ok_flush. eapply parse_loop_keys; [|exact E1]. intros k p [].
+  - apply flush_names. eapply parse_loop_names; [|exact E1]. split; [intros k p []|discriminate].
 Qed.
 
 End Structure.
@@ -982,7 +1070,7 @@ Lemma parse_ok_initial_lemma : forall pp is_call xs lines0 story,
     follows_priority (passages story) (st_explicit_start fs) (initial story).
 Proof.
   intros pp is_call xs lines0 story H. apply parse_inv in H.
-  destruct H as [fs [H0 [_ [_ [_ H]]]]]. apply determine_initial_spec in H. destruct H as [H1 H2].
+  destruct H as [fs [H0 [_ [_ [_ [_ H]]]]]]. apply determine_initial_spec in H. destruct H as [H1 H2].
   split; auto. exists fs. split; auto.
 Qed.
 
@@ -991,8 +1079,17 @@ Lemma parse_ok_keys_lemma : forall pp is_call xs lines0 story,
   forall k p, In (k, p) (passages story) -> pid p = k.
 Proof.
   intros pp is_call xs lines0 story H k p Hin. apply parse_inv in H.
-  destruct H as [fs [_ [Hk [Hp _]]]]. rewrite Hp in Hin. apply in_map_iff in Hin.
+  destruct H as [fs [_ [Hk [_ [Hp _]]]]]. rewrite Hp in Hin. apply in_map_iff in Hin.
   destruct Hin as [[k0 p0] [E Hin]]. simpl in E. inversion E; subst. simpl. apply Hk; auto.
+Qed.
+
+Lemma parse_ok_names_lemma : forall pp is_call xs lines0 story,
+  parse pp is_call xs lines0 = POk story ->
+  forall k p, In (k, p) (passages story) -> valid_passage_pattern k = true.
+Proof.
+  intros pp is_call xs lines0 story H k p Hin. apply parse_inv in H.
+  destruct H as [fs [_ [_ [Hn [Hp _]]]]]. rewrite Hp in Hin. apply in_map_iff in Hin.
+  destruct Hin as [[k0 p0] [E Hin]]. simpl in E. inversion E; subst. eapply Hn; eauto.
 Qed.
 
 Lemma validated_targets_lemma : forall pp is_call xs lines0 story,
@@ -1001,7 +1098,7 @@ Lemma validated_targets_lemma : forall pp is_call xs lines0 story,
     choices_targets_ok (passages story) (choices p) /\ tokens_targets_ok (passages story) (content p).
 Proof.
   intros pp is_call xs lines0 story H k p Hin. apply parse_inv in H.
-  destruct H as [fs [_ [_ [_ [Hv _]]]]]. eapply validate_passages_targets; eauto.
+  destruct H as [fs [_ [_ [_ [_ [Hv _]]]]]]. eapply validate_passages_targets; eauto.
 Qed.
 
 Lemma parse_never_out_of_fuel_lemma : forall pp xs lines,
